@@ -124,7 +124,7 @@ def Src(items, term, delay=0.0, first_delay=None):
                 try:
                     if live:
                         s.switch()
-                    self.pos = 0 if initial_state is None else initial_state["pos"]
+                    self.pos = 0 if (initial_state is None or getattr(self, "replay_only", False)) else initial_state["pos"]
                 finally:
                     self.inside -= 1
 
@@ -156,6 +156,10 @@ def Src(items, term, delay=0.0, first_delay=None):
                     self.inside -= 1
 
             def get_state(self):
+                if getattr(self, "replay_only", False):
+                    # a source that keeps no position of its own: {} as state, every reset() restarts the deterministic
+                    # stream; a checkpoint above it can only be honoured by replaying the items already received
+                    return {}
                 return {"pos": self.pos}
 
         _SRC_CLS = _Src
@@ -260,7 +264,7 @@ class Instr:
             g = Gen(len(instr.gens))
             instr.gens.append(g)
             ist = k.get("initial_state", a[8] if len(a) > 8 else None)
-            g.base = -1 if ist is None else ist["snapshot"]["pos"]
+            g.base = -1 if ist is None else ist["snapshot"].get("pos", 0)
             s = vsched.CUR
             if s is not None:
                 s.ev("gen", g.idx)
@@ -552,6 +556,7 @@ def _run_case(case, r, sc, weights, kill, probe_held, check_release, delay, op_b
     with Instr() as instr:
         with Session(sc["seed"], adversarial=bool(sc.get("adv")), log=True, weights=weights, op_budget=op_budget) as s:
             src = Src(case["items"], case["term"], delay=delay)
+            src.replay_only = bool(case.get("replay_only"))
             node = build_node(case, src)
             state = {"ev_i": 0, "taken": {}, "gen_of_q": {}}
 
@@ -657,9 +662,9 @@ def _run_case(case, r, sc, weights, kill, probe_held, check_release, delay, op_b
                         sd = node.state_dict()
                         it = sd["it_state"]
                         snap = it["snapshot"]
-                        s.ev("state", snap["pos"], it["steps_since_snapshot"])
+                        s.ev("state", snap.get("pos", -1), it["steps_since_snapshot"])
                         r.sds.append(sd)
-                        r.obs.append(("sd", snap["pos"], it["steps_since_snapshot"]))
+                        r.obs.append(("sd", snap.get("pos", -1), it["steps_since_snapshot"]))
                     elif op == "idle":
                         # the consumer pauses: every background thread runs until it blocks (read-ahead reaches its maximum)
                         with _Benign(s):
@@ -684,6 +689,7 @@ def _run_case(case, r, sc, weights, kill, probe_held, check_release, delay, op_b
                                 del node
                         node = None
                         src = Src(case["items"], case["term"], delay=delay)
+                        src.replay_only = bool(case.get("replay_only"))
                         node = build_node(case, src)
                         try:
                             node.reset(sd)
@@ -956,7 +962,12 @@ def _ko_resume(ctx: Ctx, job):
     it = sd["it_state"]
     f = case["f"]
     jstar = (delivered // f) * f if f > 0 else 0
-    if (it["snapshot"]["pos"], it["steps_since_snapshot"]) != (jstar, delivered - jstar):
+    if case.get("replay_only"):
+        if (it["snapshot"], it["steps_since_snapshot"]) != ({}, delivered):
+            ctx.fail("C06:state_not_closed_form", inp,
+                     f"replay-only source: after {delivered} items state_dict() = (snapshot {it['snapshot']}, steps {it['steps_since_snapshot']}), "
+                     f"expected the initial (empty) snapshot and {delivered} steps")
+    elif (it["snapshot"]["pos"], it["steps_since_snapshot"]) != (jstar, delivered - jstar):
         ctx.fail("C06:state_not_closed_form", inp,
                  f"after {delivered} items state_dict() = (source position {it['snapshot']['pos']}, steps {it['steps_since_snapshot']}), "
                  f"closed form ({jstar}, {delivered - jstar})")
@@ -989,6 +1000,7 @@ def _run_resumed(case, sd) -> Run:
         with Instr() as instr:
             with Session(sc["seed"], adversarial=bool(sc.get("adv")), log=False, op_budget=4.0) as s:
                 src = Src(case["items"], case["term"])
+                src.replay_only = bool(case.get("replay_only"))
                 node = build_node(case, src)
                 try:
                     s.begin_op()
@@ -1147,6 +1159,7 @@ def run_ko(ctx: Ctx, scale: float = 1.0):
         c = gen_case(rng, allow_reset=False)
         c["in_order"] = True
         c["fail"] = []
+        c["replay_only"] = rng.random() < 0.2
         total = len(c["items"])
         ks = list(range(total + 2))
         if len(ks) > ctx.n(4, 10):
